@@ -16,7 +16,7 @@ GOENV = dict(os.environ, GOFLAGS="-mod=mod", GOPROXY="off", GOSUMDB="off", GOTOO
              CGO_ENABLED="0")
 
 # files whose time.Now() calls are redirected to the virtual clock in harness builds
-CLOCK_GLOBS = ["internal/kvstore/table/table.go", "internal/kvstore/compaction.go", "internal/dmap/*.go"]
+CLOCK_GLOBS = ["internal/kvstore/table/table.go", "internal/kvstore/compaction.go", "internal/dmap/*.go", "internal/cluster/routingtable/routingtable.go"]
 
 
 # background workers that the harness can switch off (gate inserted at the top of the function)
@@ -34,6 +34,10 @@ GATES = {"internal/dmap/eviction.go": ["-skip", "evictKeys"],
          "internal/dmap/delete.go": ["-point", "deleteKey", "Lock", "del.loaded",
                                      "-point", "deleteOnCluster", "Delete", "del.others-deleted"],
          "internal/dmap/compaction.go": ["-point", "callCompactionOnFragment", "Lock", "compact.fragment"],
+         "internal/dmap/janitor.go": ["-point", "janitor", "Lock", "janitor.locking"],
+         # the coordinator has computed the new table (and asked every previous owner whether it still holds data) but
+         # has not pushed it yet
+         "internal/cluster/routingtable/routingtable.go": ["-point", "updateRouting", "updateRoutingTableOnCluster", "routing.computed"],
          "internal/dmap/atomic.go": ["-point", "atomicIncrDecr", "Lock", "atomic.env",
                                      "-point", "getPut", "Lock", "atomic.env",
                                      "-point", "atomicIncrDecr", "put", "atomic.read",
